@@ -6,7 +6,7 @@ from ..kmodel import KModel
 from ..poly import Rat, Poly
 
 LEVEL = 'other'
-GLI = '<ndarray::ArrayBase as vector_extensions::VectorExtensions>::get_lower_index'
+GLI = '<ndarray::ArrayBase as VectorExtensions>::get_lower_index'
 
 
 class NeedDecision(Exception):
@@ -412,8 +412,8 @@ def analyse(chk, lib, set_text=True):
     chk.note('loop_entry_states', sorted(seen_states))
     # R11.5 callers
     from ..kmodel import interp1d_obj, interp2d_obj
-    for lead, path, args, want in ((1, 'interp1d::Interp1D::get_index_left_of', ['q'], [('x', 'q')]),
-                                   (2, 'interp2d::Interp2D::get_index_left_of', ['qx', 'qy'], [('x', 'qx'), ('y', 'qy')])):
+    for lead, path, args, want in ((1, 'Interp1D::get_index_left_of', ['q'], [('x', 'q')]),
+                                   (2, 'Interp2D::get_index_left_of', ['qx', 'qy'], [('x', 'qx'), ('y', 'qy')])):
         b = anchor(chk, lib, path, 'R11.5')
         if b is None:
             continue
